@@ -23,7 +23,7 @@ var c12Specs = []famSpec{
 func init() {
 	register(&run.Prop{
 		ID: "C12",
-		Rule: "case = a random sequential history (3-12 operations) on ONE object: AddPaths (subject/clip/open, occasionally the same slice as subject and clip), Execute, ExecuteOC, ExecutePolyTree with random clip types / fill rules and solution arguments pre-filled with old data or reused across calls; object kinds: Clipper64, ClipperD, ClipperOffset (Execute64 repeated with different deltas, AddPaths in between), RectClip64/RectClipLines64. " +
+		Rule: "case = a random sequential history (3-12 operations) on ONE object: AddPaths or path-by-path AddPath (subject/clip/open, occasionally the same slice as subject and clip), Execute, ExecuteOC, ExecutePolyTree with random clip types / fill rules and solution arguments pre-filled with old data or reused across calls; object kinds: Clipper64, ClipperD, ClipperOffset (Execute64 repeated with different deltas, AddPaths in between), RectClip64/RectClipLines64. " +
 			"Executable model: state = list of AddPaths calls so far; every Execute is compared bit for bit with a fresh object replaying that list (tree form: same node polygons and parents); a one-call concatenation of the same paths must give the same region; the verif scratch accessor must report empty scan-line/out-record/horizontal/intersection lists and no active edges after every Execute; " +
 			"immut: deep copies of every caller-supplied slice are compared before/after ~40 library calls. Non-trivial = history with >= 2 executions of different kinds and a non-empty result; distinct by history digest.",
 		Assumptions: []string{"the fresh-object replay is the reference (differential); correctness of the fresh result itself is C01's business"},
@@ -34,9 +34,24 @@ func init() {
 }
 
 type addOp struct {
-	Paths Paths `json:"paths"`
-	Type  int   `json:"type"`
-	Open  bool  `json:"open"`
+	Paths  Paths `json:"paths"`
+	Type   int   `json:"type"`
+	Open   bool  `json:"open"`
+	Single bool  `json:"pathByPath,omitempty"` // added through AddPath, one call per path
+}
+
+// addTo adds the paths the way the history did: one AddPaths call, or one AddPath call per path.
+func (a *addOp) addTo(c interface {
+	AddPaths(Paths, clip.PathType, bool)
+	AddPath(Path, clip.PathType, bool)
+}) {
+	if !a.Single {
+		c.AddPaths(a.Paths, clip.PathType(a.Type), a.Open)
+		return
+	}
+	for _, p := range a.Paths {
+		c.AddPath(p, clip.PathType(a.Type), a.Open)
+	}
 }
 
 type histOp struct {
@@ -80,6 +95,7 @@ func genHistory(r *gen.Rng) []histOp {
 				a.Paths = gen.Polylines(r, 1+r.Intn(2), 100, a.Paths)
 				a.Open, a.Type = true, 0
 			}
+			a.Single = r.Chance(0.3)
 			h = append(h, histOp{Kind: "add", Add: a})
 		case 2:
 			h = append(h, histOp{Kind: "exec", CT: 1 + r.Intn(4), FR: r.Intn(4), Pre: r.Bool()})
@@ -105,6 +121,15 @@ func scratchDirty(s clip.VerifScratchState) string {
 }
 
 func treeSig(t *clip.PolyPathBase) []treeNode { return flattenTree(t) }
+
+// treeDigest is a digest of the nesting structure and polygons of a tree result.
+func treeDigest(t *clip.PolyPathBase) string {
+	var parts []string
+	for _, n := range flattenTree(t) {
+		parts = append(parts, fmt.Sprintf("%d:%v", n.parent, n.poly))
+	}
+	return run.Digest(parts)
+}
 
 func sameTree(a, b []treeNode) bool {
 	if len(a) != len(b) {
@@ -143,6 +168,39 @@ func c12Hist64(ctx *run.Ctx, id run.CaseID, r *gen.Rng) {
 	ctx.Guard(digest, "history", h, func() {
 		c := clip.NewClipper64()
 		sol, solO := junkPaths(), junkPaths()
+		// results the caller still holds (their variables are not handed to the engine again) must stay what they were
+		type keptRes struct {
+			step  int
+			paths []Paths
+			tree  *clip.PolyPathBase
+			dig   string
+		}
+		var kept []keptRes
+		keep := func(step int, tree *clip.PolyPathBase, ps ...Paths) {
+			k := keptRes{step: step, paths: ps, tree: tree}
+			if tree != nil {
+				k.dig = treeDigest(tree)
+			} else {
+				k.dig = run.Digest(ps)
+			}
+			kept = append(kept, k)
+		}
+		produced := false
+		defer func() {
+			for _, k := range kept {
+				now := ""
+				if k.tree != nil {
+					now = treeDigest(k.tree)
+				} else {
+					now = run.Digest(k.paths)
+				}
+				ctx.Count("kept_results_rechecked", 1)
+				if now != k.dig {
+					ctx.Fail(digest, "kept-result-changed", "", fmt.Sprintf("the result returned at step %d was changed by later operations on the same engine", k.step), h)
+					break
+				}
+			}
+		}()
 		for step, op := range h {
 			fresh := func() *clip.VerifScratchState { return nil }
 			_ = fresh
@@ -153,7 +211,7 @@ func c12Hist64(ctx *run.Ctx, id run.CaseID, r *gen.Rng) {
 			} {
 				f := clip.NewClipper64()
 				for _, a := range adds {
-					f.AddPaths(a.Paths, clip.PathType(a.Type), a.Open)
+					a.addTo(f)
 				}
 				return f
 			}
@@ -161,13 +219,17 @@ func c12Hist64(ctx *run.Ctx, id run.CaseID, r *gen.Rng) {
 			ct, fr := clip.ClipType(op.CT), clip.FillRule(op.FR)
 			switch op.Kind {
 			case "add":
-				c.AddPaths(op.Add.Paths, clip.PathType(op.Add.Type), op.Add.Open)
+				op.Add.addTo(c)
 				adds = append(adds, op.Add)
 				continue
 			case "exec":
 				if !op.Pre {
+					if produced {
+						keep(step-1, nil, sol) // (solO stays the caller's variable and may be handed in again)
+					}
 					sol = Paths{}
 				}
+				produced = true
 				ok := c.Execute(ct, fr, &sol)
 				want := Paths{}
 				okW := replay().Execute(ct, fr, &want)
@@ -178,8 +240,12 @@ func c12Hist64(ctx *run.Ctx, id run.CaseID, r *gen.Rng) {
 				nonEmpty = nonEmpty || len(want) > 0
 			case "execOC":
 				if !op.Pre {
+					if produced {
+						keep(step-1, nil, sol, solO)
+					}
 					sol, solO = Paths{}, Paths{}
 				}
+				produced = true
 				ok := c.ExecuteOC(ct, fr, &sol, &solO)
 				want, wantO := Paths{}, Paths{}
 				okW := replay().ExecuteOC(ct, fr, &want, &wantO)
@@ -199,6 +265,7 @@ func c12Hist64(ctx *run.Ctx, id run.CaseID, r *gen.Rng) {
 				odw := clip.PathsD{}
 				okW := replay().ExecutePolyTree64(ct, fr, tw, &odw)
 				ctx.Eval(2)
+				keep(step, t.PolyPathBase)
 				if ok != okW || !sameTree(treeSig(t.PolyPathBase), treeSig(tw.PolyPathBase)) {
 					ctx.Fail(digest, "tree", "", fmt.Sprintf("%s: ExecutePolyTree64 on the used engine differs from a fresh engine (%d vs %d nodes)", where, len(treeSig(t.PolyPathBase)), len(treeSig(tw.PolyPathBase))), h)
 				}
@@ -293,7 +360,32 @@ func c12HistD(ctx *run.Ctx, id run.CaseID, r *gen.Rng) {
 			return true
 		}
 		sol, solO := junk(), junk()
+		type keptD struct {
+			step int
+			a, b clip.PathsD
+			dig  string
+		}
+		var kept []keptD
+		produced := false
+		defer func() {
+			for _, k := range kept {
+				ctx.Count("kept_results_rechecked", 1)
+				if run.Digest([]any{k.a, k.b}) != k.dig {
+					ctx.Fail(digest, "kept-result-changedD", "", fmt.Sprintf("the result returned at step %d was changed by later operations on the same engine", k.step), h)
+					break
+				}
+			}
+		}()
 		for step, op := range h {
+			if op.Kind == "exec" && !op.Pre && produced {
+				kept = append(kept, keptD{step - 1, sol, nil, run.Digest([]any{sol, nil})})
+			}
+			if op.Kind == "execOC" && !op.Pre && produced {
+				kept = append(kept, keptD{step - 1, sol, solO, run.Digest([]any{sol, solO})})
+			}
+			if op.Kind == "exec" || op.Kind == "execOC" {
+				produced = true
+			}
 			replay := func() interface {
 				Execute(clip.ClipType, clip.FillRule, *clip.PathsD) bool
 				ExecuteOC(clip.ClipType, clip.FillRule, *clip.PathsD, *clip.PathsD) bool
